@@ -729,6 +729,16 @@ fn generate_function(
 
         Ok(fs)
     } else {
+        // A function that is declared but never defined has nothing to emit
+        if context
+            .module
+            .function_registry
+            .get_function_implementation(id)
+            .is_none()
+        {
+            return Ok(Vec::new());
+        }
+
         let mut fs = Vec::new();
         generate_function_and_trampoline(id, only_declare, &mut fs, context)?;
         Ok(fs)
